@@ -60,6 +60,7 @@ type req struct {
 	cx       int           // the context the request carries
 	cxd      time.Duration // cxDeadline / cxCancelAt: when it ends
 	viaNil   bool          // http only: through SheddingHandler(nil, ...), the documented "no shedder" form
+	opt      optPlan       // what the handler does with the optional interfaces of its writer / context
 	// what the handler did
 	wrote503 bool  // http: 503 is the status the handler answered with
 	retErr   error // rpc: the error the handler returned
@@ -183,6 +184,9 @@ func wrappers(e *env, tier string) {
 			if !q.rpc && t.Chance(1, 8) {
 				q.viaNil = true
 			}
+			if t.Chance(1, 2) {
+				drawOptPlan(t, q)
+			}
 			all = append(all, q)
 			plans[i] = append(plans[i], q)
 		}
@@ -218,6 +222,19 @@ func wrappers(e *env, tier string) {
 	next := http.HandlerFunc(func(rw http.ResponseWriter, hr *http.Request) {
 		q := cs.reqs[r.CurrentID()]
 		work(q)
+		// optOps: the handler uses the optional interfaces of its writer; true: it ends here
+		optOps := func() bool {
+			var next int
+			if rw, next = httpOpts(e, q, rw); next == ooPanic {
+				q.kNextEnd = e.tick()
+				panic(panicValue(q))
+			}
+			return next == ooReturn
+		}
+		if len(q.opt.ops) > 0 && !q.opt.late && optOps() {
+			q.kNextEnd = e.tick()
+			return
+		}
 		switch q.behave {
 		case 1:
 			rw.WriteHeader(http.StatusOK)
@@ -259,6 +276,10 @@ func wrappers(e *env, tier string) {
 				rw.WriteHeader(http.StatusServiceUnavailable)
 			}
 		}
+		if len(q.opt.ops) > 0 && q.opt.late {
+			r.Probe("opt-after-the-answer")
+			optOps()
+		}
 		q.kNextEnd = e.tick()
 	})
 	h := mw(next)
@@ -267,6 +288,16 @@ func wrappers(e *env, tier string) {
 		q := cs.reqs[r.CurrentID()]
 		work(q)
 		defer func() { q.kNextEnd = e.tick() }()
+		if len(q.opt.ops) > 0 && !q.opt.late {
+			switch next, refusal := rpcOpts(e, q, ctx); next {
+			case ooPanic:
+				panic(panicValue(q))
+			case ooReturn:
+				// hands the refusal (a gRPC status, no deadline error) to its caller
+				q.retErr, q.opt.cutShort = refusal, true
+				return nil, q.retErr
+			}
+		}
 		switch q.behave {
 		case 1:
 			q.retErr = context.DeadlineExceeded
@@ -287,6 +318,12 @@ func wrappers(e *env, tier string) {
 		case 11:
 			// works until the caller's context is over and reports how it ended
 			q.retErr = waitCtx(ctx)
+		}
+		if len(q.opt.ops) > 0 && q.opt.late {
+			r.Probe("opt-after-the-answer")
+			if next, _ := rpcOpts(e, q, ctx); next == ooPanic {
+				panic(panicValue(q))
+			}
 		}
 		if q.retErr != nil {
 			return nil, q.retErr
@@ -335,14 +372,14 @@ func wrappers(e *env, tier string) {
 				}
 			}()
 			if q.rpc {
-				_, rpcErr = icpt(ctx, "req", &grpc.UnaryServerInfo{FullMethod: "/svc/method"}, rpcHandler)
+				_, rpcErr = icpt(rpcCtx(e, q, ctx), "req", &grpc.UnaryServerInfo{FullMethod: "/svc/method"}, rpcHandler)
 			} else {
-				rec := httptest.NewRecorder()
+				rec, seen := newWriter(e, q)
 				hh := h
 				if q.viaNil {
 					hh = hNil
 				}
-				defer func() { code = rec.Code }()
+				defer func() { code = seen() }()
 				hh.ServeHTTP(rec, httptest.NewRequest(http.MethodGet, "/x", nil).WithContext(ctx))
 			}
 		}()
@@ -386,15 +423,46 @@ func wrappers(e *env, tier string) {
 		if q.panicked {
 			r.Probe("wrapper-handler-panicked")
 		}
+		// what the handler did with the optional interfaces of its writer / context
+		how := ""
+		endK := q.kNextEnd
+		switch {
+		case q.opt.hjOK:
+			// the connection was taken over: the request / response cycle ended there, the
+			// promise may be resolved from then on (once); with Pass or Fail is left open
+			how, q.open = "/hijacked", true
+			if q.opt.kHijacked < endK {
+				endK = q.opt.kHijacked
+			}
+			if q.opt.writeAfter {
+				r.Probe("opt-write-after-hijack")
+			}
+		case q.opt.hjRefused > 0 && q.rpc:
+			how = "/header-call-refused"
+		case q.opt.hjRefused > 0:
+			how = "/hijack-refused"
+		}
+		if q.opt.unwrapped {
+			q.open = true // the answer went past the wrapper
+		}
+		if !q.rpc && q.wrote503 != (code == http.StatusServiceUnavailable) {
+			// the status the handler meant to answer with is not the one the client received (the
+			// header had been sent by a Flush, an informational status on a writer that takes it for
+			// the final one, ...): what that counts as is left open
+			q.open = true
+		}
+		if how != "" && q.pass+q.fail == 1 {
+			r.Probe("opt-resolved-once" + how)
+		}
 		switch {
 		case q.nextRuns != 1:
 			r.Fail("wrapper-handler-runs", "%s request %d was admitted, its handler ran %d times", kind, q.id, q.nextRuns)
 		case q.pass+q.fail == 0:
-			r.Fail("promise-unresolved", "%s request %d (behaviour %d, panicked=%v) was admitted and served but its promise was never resolved", kind, q.id, q.behave, q.panicked)
+			r.Fail("promise-unresolved"+how, "%s request %d (behaviour %d, panicked=%v, optional interfaces %+v) was admitted and served but its promise was never resolved", kind, q.id, q.behave, q.panicked, q.opt)
 		case q.pass+q.fail > 1:
-			r.Fail("promise-twice", "%s request %d (behaviour %d): promise resolved %d times (pass %d, fail %d)", kind, q.id, q.behave, q.pass+q.fail, q.pass, q.fail)
-		case q.kResolved < q.kNextEnd:
-			r.Fail("promise-early", "%s request %d: promise resolved before the handler ended", kind, q.id)
+			r.Fail("promise-twice"+how, "%s request %d (behaviour %d, optional interfaces %+v): promise resolved %d times (pass %d, fail %d)", kind, q.id, q.behave, q.opt, q.pass+q.fail, q.pass, q.fail)
+		case q.kResolved < endK:
+			r.Fail("promise-early"+how, "%s request %d: promise resolved before the handler ended (before the connection was taken over)", kind, q.id)
 		case q.panicked:
 			// what a panicking handler counts as is left open
 		case q.open:
@@ -407,7 +475,7 @@ func wrappers(e *env, tier string) {
 			}
 		default:
 			// only a deadline error (also wrapped) tells the shedder that the request failed under load
-			if q.retErr != nil && q.behave >= 8 {
+			if q.retErr != nil && q.behave >= 8 && !q.opt.cutShort {
 				r.Probe("rpc-error-identity-" + []string{"canceled", "", "own-sentinel", "ctx-err"}[q.behave-8])
 			}
 			if wantFail := errors.Is(q.retErr, context.DeadlineExceeded); wantFail != (q.fail == 1) {
